@@ -227,7 +227,7 @@ def check_case(p, ctx):
             return ctx.violation("restricted-not-optimal", p, observed=f_rep, expected=f_ref, detail=info)
     # interface objects carry the values (unless excluded)
     for k, be in enumerate(f0.internal_big_edges):
-        if k not in exp_excl and abs(be.tension - vals[k]) > 1e-12:
+        if k not in exp_excl and abs(be.tension - vals[k]) > 1e-12 * max(1.0, abs(vals[k])):
             return ctx.violation("interface-tension", p, observed=float(be.tension), expected=float(vals[k]))
     ctx.count("path:" + rec["path"])
     ctx.count("limit:" + ("default" if p["limit"] == "default" else "inf" if p["limit"] == "inf" else "drawn"))
